@@ -25,6 +25,7 @@ import (
 	"go/ast"
 	"go/token"
 	"math/rand"
+	"os"
 	"reflect"
 	"strings"
 
@@ -443,6 +444,10 @@ func c21exec(op string) Result {
 		shape += "-splice"
 	}
 	if fs != cs {
+		if d := os.Getenv("C21_DUMP"); d != "" {
+			os.WriteFile(d+"/fast.txt", []byte(fs), 0o644)
+			os.WriteFile(d+"/classic.txt", []byte(cs), 0o644)
+		}
 		res.Viol = "fast and classic disagree: fast " + truncate(fs, 300) + " | classic " + truncate(cs, 300) + " | fasterr=" + truncate(ferr, 120) + " classicerr=" + truncate(cerr, 120)
 		switch {
 		case fs != "err" && cs != "err" && c21trivia(fvals[0], false) == c21trivia(cvals[0], false):
@@ -452,6 +457,14 @@ func c21exec(op string) Result {
 			// ... and up to a block that is the only statement of a block (a block value unquoted at depth > 1
 			// becomes the body of the rebuilt ~unquote in fast, a statement of that body in classic)
 			res.Key = "fast-classic-differ-nested-block"
+		case fs != "err" && cs == "err" && c21deepSpliceSingle(tn.Node()) == 1:
+			// a plain ~unquote_splice at evaluation depth outside any list: classic rejects it
+			// ("cannot splice in single-statement context"), fast inserts the value like ~unquote
+			res.Key = "fast-classic-differ-splice-single-slot"
+		case fs != "err" && cs != "err" && c21deepSpliceSingle(tn.Node()) >= 2:
+			// the template has a stack of unquotes ending in ~unquote_splice, as long as the quasiquote depth,
+			// in a position that is not a list element (label target, if/for body statement, operand ...)
+			res.Key = "fast-classic-differ-deep-splice-single-slot"
 		case fs == "err":
 			res.Key = "fast-classic-differ-fast-fails-" + shape
 		case cs == "err":
@@ -602,6 +615,90 @@ func c21usesTreeVars(text string, env []c21val) bool {
 	return false
 }
 
+// c21deepSpliceSingle: does the template contain, outside any list, a stack of >= 2 directly nested unquotes
+// whose innermost operator is ~unquote_splice and which is at least as long as the quasiquote depth there
+// (returns the length of the longest such stack; 1 = a plain ~unquote_splice at evaluation depth outside a list; 0 = none)
+func c21deepSpliceSingle(root ast.Node) int {
+	found := 0
+	var walk func(v reflect.Value, d int, inList bool)
+	chain := func(u *ast.UnaryExpr) (int, token.Token) {
+		n := 1
+		for {
+			f, ok := u.X.(*ast.FuncLit)
+			if !ok || f.Body == nil || len(f.Body.List) != 1 {
+				return n, u.Op
+			}
+			var x ast.Node = f.Body.List[0]
+			for {
+				switch y := x.(type) {
+				case *ast.ExprStmt:
+					x = y.X
+					continue
+				case *ast.ParenExpr:
+					x = y.X
+					continue
+				}
+				break
+			}
+			in, ok := x.(*ast.UnaryExpr)
+			if !ok || (in.Op != etoken.UNQUOTE && in.Op != etoken.UNQUOTE_SPLICE) {
+				return n, u.Op
+			}
+			u = in
+			n++
+		}
+	}
+	walk = func(v reflect.Value, d int, inList bool) {
+		switch v.Kind() {
+		case reflect.Interface:
+			if !v.IsNil() {
+				walk(v.Elem(), d, inList)
+			}
+		case reflect.Ptr:
+			if v.IsNil() {
+				return
+			}
+			switch n := v.Interface().(type) {
+			case *ast.Object, *ast.Scope:
+				return
+			case *ast.ExprStmt:
+				walk(reflect.ValueOf(n.X), d, inList)
+				return
+			case *ast.ParenExpr:
+				walk(reflect.ValueOf(n.X), d, inList)
+				return
+			case *ast.UnaryExpr:
+				if f, ok := n.X.(*ast.FuncLit); ok && f.Body != nil {
+					switch n.Op {
+					case etoken.QUASIQUOTE:
+						walk(reflect.ValueOf(f.Body), d+1, false)
+						return
+					case etoken.UNQUOTE, etoken.UNQUOTE_SPLICE:
+						if !inList && d >= 1 {
+							if k, op := chain(n); k >= d && op == etoken.UNQUOTE_SPLICE && k > found {
+								found = k
+							}
+						}
+						walk(reflect.ValueOf(f.Body), d-1, false)
+						return
+					}
+				}
+			}
+			walk(v.Elem(), d, false)
+		case reflect.Struct:
+			for i := 0; i < v.NumField(); i++ {
+				walk(v.Field(i), d, false)
+			}
+		case reflect.Slice:
+			for i := 0; i < v.Len(); i++ {
+				walk(v.Index(i), d, true)
+			}
+		}
+	}
+	walk(reflect.ValueOf(root), 0, false)
+	return found
+}
+
 func c21maxDepth(n ast.Node) int {
 	max := 0
 	var walk func(n ast.Node, d int)
@@ -666,6 +763,7 @@ var c21fixed = []string{
 	"~quasiquote{var v = ~unquote{x0}}", "~quasiquote{~unquote{st}}", "~quasiquote{a; ~unquote{st}; b}", "~quasiquote{if a { ~unquote{st} }}",
 	"~quasiquote{~unquote{x0}.f}", "~quasiquote{x.~unquote{x0}}", "~quasiquote{func ~unquote{x0}() {}}", "~quasiquote{type T struct { ~unquote{x0} int }}",
 	"~quasiquote{~unquote{x0}: for { break }}", "~quasiquote{a[~unquote{x0}:~unquote{x1}]}", "~quasiquote{~unquote{x0} := ~unquote{x1}}",
+	"~quasiquote{x <- ~unquote_splice{bl}}", "~quasiquote{~quasiquote{L: ~unquote{~unquote_splice{l2}}}}", "~quasiquote{~quasiquote{if a { ~unquote{~unquote_splice{l2}} }}}",
 	"~quasiquote{L: var v, w int}", "~quasiquote{~quote{~unquote_splice{l2}}}", "~quasiquote{~quote{var b = w}}", "~quasiquote{~quasiquote{}}",
 	"~quasiquote{~quasiquote{~unquote_splice{~unquote{bl}}}}", "~quasiquote{~quasiquote{a; ~unquote{~unquote{bl}}}}", "~quasiquote{((x))}",
 	"~quasiquote{~unquote{x0}, y = 1, 2}", "~quasiquote{go ~unquote{call}}", "~quasiquote{defer ~unquote{call}}", "~quasiquote{~unquote{x0}++}",
